@@ -44,6 +44,8 @@ pub struct RoundInfo {
 
 #[allow(unused_variables)]
 pub trait Hooks {
+    /// once, before the group is created
+    fn init(&mut self, w: &mut World) {}
     /// once per round, before anything is sent
     fn epoch_start(&mut self, w: &mut World) {}
     /// after all honest proposals of the round were delivered, before commits are built
@@ -112,7 +114,7 @@ impl World {
         let gce = if self.rng.chance(1, 2) {
             self.random_gce()
         } else {
-            Default::default()
+            self.base_gce()
         };
         self.create_group(c, gce)?;
         self.export_probes = vec![
